@@ -27,6 +27,13 @@ enum E { X, #[codec(index = 7)] Y(u32), Z { a: G<u8>, p: PhantomData<u64>, #[cod
 #[derive(TypeInfo)]
 struct Tup(u8, PhantomData<String>, [u16; 4]);
 
+/// two instantiations whose definitions are identical (the parameter is skipped): distinct identities must still get distinct ids
+#[derive(TypeInfo)]
+#[scale_info(skip_type_params(M))]
+struct Quantity<M> { amount: u32, unit: PhantomData<M> }
+struct Metres;
+struct Feet;
+
 static COUNT: AtomicUsize = AtomicUsize::new(0);
 struct Counted;
 impl TypeInfo for Counted {
@@ -70,7 +77,7 @@ fn roots() -> Vec<Root> {
         r!((u8, u16)), r!([u8; 3]), r!(Option<u32>), r!(Result<u8, String>), r!(BTreeMap<u8, String>), r!(scale::Compact<u32>), r!(core::ops::Range<u8>), r!(core::time::Duration), r!(G<u16>), r!(Vec<u16>),
         // wrappers of wrappers: their target is itself an alias
         r!(Box<Rc<u8>>, 0), r!(&'static Box<u8>, 0), r!(Arc<String>, 3), r!(Box<Vec<u8>>, 4),
-        r!(Documented), r!(bitvec::vec::BitVec<u8, bitvec::order::Lsb0>), r!(bitvec::vec::BitVec<u16, bitvec::order::Msb0>), r!([Documented; 5]), r!((Documented, u8, Rec)),
+        r!(Quantity<Metres>), r!(Quantity<Feet>), r!(Documented), r!(bitvec::vec::BitVec<u8, bitvec::order::Lsb0>), r!(bitvec::vec::BitVec<u16, bitvec::order::Msb0>), r!([Documented; 5]), r!((Documented, u8, Rec)),
     ]
 }
 
